@@ -1,5 +1,5 @@
 #!/bin/bash
-export GOFLAGS=-mod=mod GOPROXY=off GOSUMDB=off GOTOOLCHAIN=local GOWORK=off
+export GOFLAGS="-mod=mod -trimpath" GOPROXY=off GOSUMDB=off GOTOOLCHAIN=local GOWORK=off
 D=$(readlink -f $1); id=$(basename $D); P=${id:0:3}
 S=$(mktemp -d /tmp/cvss-seed.XXXXXX)
 rsync -a --exclude .git /repo/ "$S/repo/"; mkdir -p "$S/verif/evidence"; cp /verif/known_findings.txt "$S/verif/"
